@@ -102,8 +102,9 @@ func scopes() []*scope {
 				genSched(mkEnvs([]int{5}, []int{3}, one, one, 1, plainKinds), schedBounds{types: coldTypes[:7], levels: 2, second: true}),
 				genSched(mkEnvs([]int{5}, []int{3}, []int{0, 1}, one, 1, allKinds), schedBounds{types: hotTypes, levels: 2}))},
 		{name: "sched/replicas+learners", tiers: "thorough",
-			desc: "4 and 5 stores, <=1 non-up store: 1, 2 and 4 replicas (rules off / on), 3 load levels; 2 or 3 voters + 1 TiKV learner (rules on, every learner position, optional pending follower; 3 load levels for 2 voters on 4 stores, else 2); 2 voters + 1 TiFlash learner (5 stores, 2 TiFlash, 3 load levels); all schedulers (hot ones: 2 load levels, no pending peer)",
-			gen: concat(genSched(mkEnvs([]int{4, 5}, []int{1, 2, 4}, []int{0, 1}, one, 1, allKinds), schedBounds{types: coldTypes, levels: 3}),
+			desc: "4 and 5 stores, <=1 non-up store: 1, 2 and 4 replicas (rules off / on), 3 load levels on 4 stores and 2 on 5; 2 or 3 voters + 1 TiKV learner (rules on, every learner position, optional pending follower; 3 load levels for 2 voters on 4 stores, else 2); 2 voters + 1 TiFlash learner (5 stores, 2 TiFlash, 3 load levels); all schedulers (hot ones: 2 load levels, no pending peer)",
+			gen: concat(genSched(mkEnvs([]int{4}, []int{1, 2, 4}, []int{0, 1}, one, 1, allKinds), schedBounds{types: coldTypes, levels: 3}),
+				genSched(mkEnvs([]int{5}, []int{1, 2, 4}, []int{0, 1}, one, 1, allKinds), schedBounds{types: coldTypes, levels: 2}),
 				genSched(mkEnvs([]int{4}, []int{2}, []int{3}, one, 1, allKinds), schedBounds{types: coldTypes, levels: 3, pending: true}),
 				genSched(mkEnvs([]int{4}, []int{3}, []int{3}, one, 1, allKinds), schedBounds{types: coldTypes, levels: 2, pending: true}),
 				genSched(mkEnvs([]int{5}, []int{2, 3}, []int{3}, one, 1, allKinds), schedBounds{types: coldTypes, levels: 2, pending: true}),
